@@ -2,6 +2,51 @@
 open Model
 open Conv
 
-let handle (cmd : string) (_rest : string) : string =
+let words (s : string) : string list = List.filter (fun w -> w <> "") (String.split_on_char ' ' s)
+let tail_int (w : string) : int = int_of_string (String.sub w 1 (String.length w - 1))
+let tail2_int (w : string) : int = int_of_string (String.sub w 2 (String.length w - 2))
+let commas f l = String.concat "," (List.map f l)
+
+(* S p<n> o c s r d  -> raise:visible|... *)
+let stack_op (w : string) : n op =
+  match w.[0] with
+  | 'p' -> OPush (n_of_int (tail_int w))
+  | 'o' -> OPop | 'c' -> OClear | 's' -> OSnap | 'r' -> ORestore | 'd' -> ODrop
+  | _ -> failwith "stack op"
+
+let int_op (w : string) : iop =
+  match w.[0] with
+  | 's' -> ISnap | 'r' -> IRestore | 'd' -> IDrop | 'z' -> IZero
+  | 'a' -> IAdd (z_of_int (tail_int w))
+  | _ -> failwith "int op"
+
+let pstate_op (w : string) : pop_ =
+  match w with
+  | "ck" -> PCheckpoint | "ok" -> POk | "rs" -> PRestore
+  | "uo" -> PUserPop | "uc" -> PUserClear | "ro" -> PRulePop
+  | "di" -> PDepthInc | "dz" -> PDepthZero | "to" -> PTagPop
+  | _ ->
+    (match String.sub w 0 2 with
+     | "sp" -> PSetPos (nat_of_int (tail2_int w))
+     | "up" -> PUserPush (nat_of_int (tail2_int w))
+     | "rp" -> PRulePush (nat_of_int (tail2_int w))
+     | "tp" -> PTagPush (nat_of_int (tail2_int w))
+     | _ -> failwith "pstate op")
+
+let handle (cmd : string) (rest : string) : string =
   match cmd with
+  | "S" ->
+      let ops = List.map stack_op (words rest) in
+      let tr = strace sinit ops in
+      String.concat "|" (List.map (fun (r, v) ->
+        (if r then "1:" else "0:") ^ commas (fun x -> string_of_int (int_of_n x)) v) tr)
+  | "I" ->
+      let ops = List.map int_op (words rest) in
+      commas (fun z -> string_of_int (int_of_z z)) (itrace { ival = Z0; icps = [] } ops)
+  | "T" ->
+      let ops = List.map pstate_op (words rest) in
+      let nats l = commas (fun x -> string_of_int (int_of_nat x)) l in
+      String.concat "|" (List.map (fun ((((p, u), r), d), t) ->
+        Printf.sprintf "%d;%s;%s;%d;%s" (int_of_nat p) (nats u) (nats r) (int_of_z d) (nats t))
+        (ptrace pinit ops))
   | _ -> failwith ("unknown command " ^ cmd)
